@@ -891,6 +891,267 @@ Proof.
   - split; [exact A|]. split; [|exact C]. eapply M_weaken; [|exact B]. intros j k. apply lminus_sub.
 Qed.
 
+(* ------------------------------------------------------------------ what an operation covers *)
+(* a status query on store si about the ids ks: afterwards every one of them that the (local-class)
+   store holds is read-only - verified and protected, or trusted - so they leave the leftovers *)
+Lemma check_obj_M_done E st si k dn : M E st si dn [] -> M E (check_obj H st si k) si (k :: dn) [].
+Proof.
+  intros HM.
+  assert (HM' : M E (check_obj H st si k) si dn []).
+  { unfold check_obj. destruct (get_store st si) as [s|]; [|exact HM].
+    destruct (s_cls s); [|exact HM]. destruct (alookup k (s_objs s)) as [o|]; [|exact HM].
+    destruct (o_mode o =? mode_ro); [exact HM|].
+    destruct (list_N_eqb _ _); [now apply chmod_all_M|now apply del_obj_M]. }
+  apply M_shift; [eapply M_pending_incl; [|exact HM']; intros x []|].
+  intros s' o' Hs Ho Hc. unfold check_obj in Hs. rewrite get_store_nth in Hs.
+  destruct (nth_error (st_stores st) si) as [s|] eqn:Es; [|congruence].
+  destruct (s_cls s) eqn:Ec.
+  2:{ rewrite Es in Hs. injection Hs as <-. congruence. }
+  destruct (alookup k (s_objs s)) as [o|] eqn:Eo.
+  2:{ rewrite Es in Hs. injection Hs as <-. congruence. }
+  destruct (o_mode o =? mode_ro) eqn:Em.
+  { rewrite Es in Hs. injection Hs as <-. rewrite Eo in Ho. injection Ho as <-. now apply N.eqb_eq. }
+  destruct (list_N_eqb _ _).
+  - rewrite chmod_all_nth, Es in Hs. simpl in Hs. injection Hs as <-.
+    rewrite chmod_store_lookup, Eo in Ho. simpl in Ho. injection Ho as <-.
+    unfold chmod_obj. rewrite N.eqb_refl. reflexivity.
+  - rewrite (del_obj_absent _ _ _ _ Hs) in Ho. discriminate.
+Qed.
+
+Lemma check_all_M_done E st si ks dn :
+  M E st si dn [] -> M E (check_all H st si ks) si (rev ks ++ dn) [].
+Proof.
+  unfold check_all. revert st dn. induction ks as [|k r IH]; intros st dn HM; simpl; [exact HM|].
+  rewrite <- app_assoc. apply IH. now apply check_obj_M_done.
+Qed.
+
+Lemma check_all_Good_minus E st0 st si ks :
+  Good E st0 st -> Good (lminus E si ks) st0 (check_all H st si ks).
+Proof.
+  intros HG. destruct (check_all_Good E st0 st si ks HG) as (A & _ & C). destruct HG as (_ & HM & _).
+  split; [exact A|]. split; [|exact C]. apply M_done_lminus. apply check_all_M_done. now apply M_nil_any with O.
+Qed.
+
+Definition expand_ids (a : alg) (src : oid -> option (list N)) (ids : list oid) (sh : bool) : list oid :=
+  match expand a src ids sh with inl all => all | inr _ => [] end.
+
+Lemma lminus_nil (E : lset) si j k : E j k -> lminus E si [] j k.
+Proof. intros A. split; [exact A|]. intros [_ []]. Qed.
+
+(* a transfer covers every id it asks about (the requested ones and, unless shallow, the files the
+   requested directories list): the destination either holds it read-only afterwards or not at all *)
+Lemma transfer_core_Good_minus E a srcf sidx vf st0 st dst ids sh :
+  (forall st', Good E st0 st' -> forall k b, srcf st' k = Some b -> item_ok st0 dst k b) ->
+  Good E st0 st ->
+  Good (lminus E dst (expand_ids a (srcf st) ids sh)) st0 (fst (transfer_core H a srcf sidx vf st dst ids sh)).
+Proof.
+  intros Hsrc HG. unfold transfer_core, expand_ids.
+  destruct (expand a (srcf st) ids sh) as [all|c]; simpl.
+  2:{ eapply Good_weaken; [|exact HG]. intros j k. apply lminus_nil. }
+  set (E' := lminus E dst all).
+  assert (Hsub : forall j k, E' j k -> E j k) by (intros j k; apply lminus_sub).
+  assert (Hsrc' : forall st', Good E' st0 st' -> forall k b, srcf st' k = Some b -> item_ok st0 dst k b).
+  { intros st' HG'. apply Hsrc. now apply Good_weaken with E'. }
+  pose proof (check_all_Good_minus E st0 st dst all HG) as HG1. fold E' in HG1.
+  destruct (filter _ all) as [|m ms]; simpl; [exact HG1|].
+  set (st2 := match sidx with Some i => check_all H (check_all H st dst all) i all | None => check_all H st dst all end).
+  assert (HG2 : Good E' st0 st2).
+  { subst st2. destruct sidx; [now apply check_all_Good|exact HG1]. }
+  match goal with |- context[transfer_plan H a (srcf st2) ?v st2 dst all] => set (vfa := v) end.
+  destruct (transfer_plan H a (srcf st2) vfa st2 dst all) as [[fs ds]|c] eqn:Ep; simpl; [|exact HG2].
+  pose proof (transfer_plan_src _ _ _ _ _ _ _ _ Ep) as Hs.
+  unfold apply_plan. simpl. apply add_new_fold_Good.
+  - intros it Hin. apply (Hsrc' st2 HG2). apply Hs. apply in_or_app. now right.
+  - destruct fs as [|f fr]; [exact HG2|]. apply add_new_Good; [|exact HG2].
+    intros it Hin. apply (Hsrc' st2 HG2). apply Hs. apply in_or_app. now left.
+Qed.
+
+(* the ids an operation adds or covers, and the store they are in *)
+Definition stage_cov (st : state) (si : nat) (w : work) : list oid :=
+  match get_store st si with
+  | None => []
+  | Some s =>
+      let a := s_alg s in
+      match w with
+      | WFile b => let k := H a b in expand_ids a (refs_lookup [(k, b)]) [k] false
+      | WDir files =>
+          let hashed := map (fun kb => (fst kb, H a (snd kb), snd kb)) files in
+          let listing := listing_of a (map (fun x => (fst (fst x), snd (fst x))) hashed) in
+          let d := dir_oid_of H listing in
+          let refs := map (fun x => (snd (fst x), snd x)) hashed ++ [(d, listing)] in
+          match a with
+          | Md5 => expand_ids a (refs_lookup refs) [d] false
+          | _ => expand_ids a (refs_lookup refs) [H a listing ++ dot_dir] false
+          end
+      end
+  end.
+
+Definition covered (st : state) (o : op) : nat * list oid :=
+  match o with
+  | OStage si w => (si, stage_cov st si w)
+  | OStageUpload si w =>
+      (si, match get_store st si with
+           | Some s => match s_alg s, w with
+                       | Md5, _ => stage_cov st si w
+                       | _, WDir [] => stage_cov st si w
+                       | _, _ => []
+                       end
+           | None => []
+           end)
+  | OAdd si _ k => (si, [k])
+  | OTransfer src dst ids sh _ =>
+      (dst, match get_store st src, get_store st dst with
+            | Some s, Some _ => if Nat.eqb src dst then []
+                                else expand_ids (s_alg s) (fun k => store_bytes st src k) ids sh
+            | _, _ => []
+            end)
+  | OSaveIndex si dirs files =>
+      (si, match get_store st si with
+           | Some s => map (fun f => snd f) files
+                       ++ map (fun d => dir_oid_of H (dir_listing (s_alg s) files d)) dirs
+           | None => []
+           end)
+  | OMigrate src dst order _ =>
+      (dst, match get_store st src, get_store st dst with
+            | Some s, Some d => map fst (migrate_items H (s_alg d) (s_objs s) order)
+            | _, _ => []
+            end)
+  | OReopen si _ => (si, [])
+  | ORot si _ _ => (si, [])
+  end.
+
+Lemma Good_nil E st0 st si : Good E st0 st -> Good (lminus E si []) st0 st.
+Proof. apply Good_weaken. intros j k. apply lminus_nil. Qed.
+
+Lemma lminus_lminus_app (E : lset) si a b j k : lminus (lminus E si a) si b j k -> lminus E si (a ++ b) j k.
+Proof.
+  intros [[A B] C]. split; [exact A|]. intros [-> Hin]. apply in_app_or in Hin as [?|?]; [apply B|apply C]; auto.
+Qed.
+
+Lemma stage_Good_minus E st si w :
+  (match w with WDir _ => forall s, get_store st si = Some s -> s_alg s <> Sha256 | WFile _ => True end) ->
+  Names st -> M E st O [] [] -> Good (lminus E si (stage_cov st si w)) st (fst (stage H st si w)).
+Proof.
+  intros Hw HN HM. unfold stage, stage_cov.
+  destruct (get_store st si) as [s|] eqn:Es; simpl; [|apply Good_nil; now apply Good_refl].
+  pose proof (alg_at_get _ _ _ Es) as Hal.
+  destruct w as [b|files].
+  - apply (transfer_core_Good_minus E (s_alg s) (fun _ => refs_lookup [(H (s_alg s) b, b)])); [|now apply Good_refl].
+    intros _ _ k b0 Hl. apply refs_lookup_In in Hl. destruct Hl as [[= <- <-]|[]].
+    intros a Ha. rewrite Hal in Ha. injection Ha as <-. apply named_ok_file.
+  - specialize (Hw s eq_refl).
+    set (hashed := map (fun kb => (fst kb, H (s_alg s) (snd kb), snd kb)) files).
+    set (listing := listing_of (s_alg s) _).
+    set (d := dir_oid_of H listing).
+    set (refs := map _ hashed ++ [(d, listing)]).
+    assert (Hd : item_ok st si d listing).
+    { intros a Ha. rewrite Hal in Ha. injection Ha as <-. subst d listing.
+      unfold dir_oid_of, listing_of. now apply named_ok_dir. }
+    assert (Hrefs : forall st', Good E st st' -> forall k b, refs_lookup refs k = Some b -> item_ok st si k b).
+    { intros _ _ k b Hl. apply refs_lookup_In in Hl. subst refs.
+      apply in_app_or in Hl as [Hl|[[= <- <-]|[]]]; [|exact Hd].
+      apply in_map_iff in Hl as (x & [= <- <-] & Hx). subst hashed.
+      apply in_map_iff in Hx as (kb & <- & _). simpl.
+      intros a Ha. rewrite Hal in Ha. injection Ha as <-. apply named_ok_file. }
+    destruct (s_alg s) eqn:Ea.
+    + apply (transfer_core_Good_minus E Md5 (fun _ => refs_lookup refs)); [exact Hrefs|now apply Good_refl].
+    + apply (transfer_core_Good_minus E Md5D2U (fun _ => refs_lookup refs)); [exact Hrefs|].
+      apply add_copy_Good; [|now apply Good_refl]. intros it [<-|[]]. exact Hd.
+    + congruence.
+Qed.
+
+Lemma stage_upload_Good_minus E st si w :
+  (match w with WDir _ => forall s, get_store st si = Some s -> s_alg s <> Sha256 | WFile _ => True end) ->
+  Names st -> M E st O [] [] ->
+  Good (lminus E si (snd (covered st (OStageUpload si w)))) st (fst (stage_upload H st si w)).
+Proof.
+  intros Hw HN HM. unfold stage_upload, covered. cbn [snd].
+  destruct (get_store st si) as [s|] eqn:Es; simpl; [|apply Good_nil; now apply Good_refl].
+  assert (Hs : Good (lminus E si (stage_cov st si w)) st (fst (stage H st si w)))
+    by (apply stage_Good_minus; [rewrite Es|..]; assumption).
+  destruct (s_alg s); [exact Hs| |];
+    (destruct w as [b|[|f r]]; simpl; [apply Good_nil; now apply Good_refl|exact Hs|apply Good_nil; now apply Good_refl]).
+Qed.
+
+Lemma transfer_op_Good_minus E st src dst ids sh vf :
+  (forall s d, get_store st src = Some s -> get_store st dst = Some d -> s_alg s = s_alg d) ->
+  Names st -> M E st O [] [] ->
+  Good (lminus E dst (snd (covered st (OTransfer src dst ids sh vf)))) st (fst (transfer_op H st src dst ids sh vf)).
+Proof.
+  intros Hw HN HM. unfold transfer_op, covered. cbn [snd].
+  destruct (get_store st src) as [s|] eqn:Es; [|apply Good_nil; now apply Good_refl].
+  destruct (get_store st dst) as [d|] eqn:Ed; [|apply Good_nil; now apply Good_refl].
+  destruct (Nat.eqb src dst); [apply Good_nil; now apply Good_refl|].
+  apply (transfer_core_Good_minus E (s_alg s) (fun st' k => store_bytes st' src k)); [|now apply Good_refl].
+  intros st' HG k b Hl. eapply store_bytes_named; eauto.
+  intros s0 d0 Hs0 Hd0. rewrite Es in Hs0. rewrite Ed in Hd0. now apply Hw.
+Qed.
+
+Lemma save_index_Good_minus E st si dirs files :
+  (forall s, get_store st si = Some s ->
+     (forall f, In f files -> snd f = H (s_alg s) (snd (fst f))) /\ (dirs <> [] -> s_alg s <> Sha256)) ->
+  Names st -> M E st O [] [] ->
+  Good (lminus E si (snd (covered st (OSaveIndex si dirs files)))) st (fst (save_index H st si dirs files)).
+Proof.
+  intros Hw HN HM. unfold save_index, covered. cbn [snd].
+  destruct (get_store st si) as [s|] eqn:Es; simpl; [|apply Good_nil; now apply Good_refl].
+  destruct (Hw s eq_refl) as [Hf Hd]. pose proof (alg_at_get _ _ _ Es) as Hal.
+  set (fk := map (fun f => snd f) files).
+  assert (H1 : Good (lminus E si fk) st (match files with
+                        | [] => st
+                        | _ => add_copy st si (map (fun f => (snd f, snd (fst f))) files) true
+                        end)).
+  { destruct files as [|f0 fr]; [apply Good_nil; now apply Good_refl|].
+    replace fk with (map fst (map (fun f => (snd f, snd (fst f))) (f0 :: fr)))
+      by (subst fk; rewrite map_map; reflexivity).
+    apply add_copy_Good_minus; [|now apply Good_refl].
+    intros it Hin. apply in_map_iff in Hin as (f & <- & Hin). simpl.
+    intros a Ha. rewrite Hal in Ha. injection Ha as <-. rewrite (Hf f Hin). apply named_ok_file. }
+  revert H1. generalize (match files with
+                         | [] => st
+                         | _ => add_copy st si (map (fun f => (snd f, snd (fst f))) files) true
+                         end).
+  assert (Hall : forall d, In d dirs -> s_alg s <> Sha256).
+  { intros d Hin. apply Hd. intros ->. destruct Hin. }
+  clear Hw Hd. generalize fk. clear fk.
+  induction dirs as [|d r IH]; intros fk st1 H1; simpl.
+  - now rewrite app_nil_r.
+  - replace (fk ++ dir_oid_of H (dir_listing (s_alg s) files d) :: map (fun d0 => dir_oid_of H (dir_listing (s_alg s) files d0)) r)
+      with ((fk ++ [dir_oid_of H (dir_listing (s_alg s) files d)]) ++ map (fun d0 => dir_oid_of H (dir_listing (s_alg s) files d0)) r)
+      by (rewrite <- app_assoc; reflexivity).
+    apply IH.
+    + intros d' Hin. apply (Hall d'). now right.
+    + eapply Good_weaken; [intros j k; apply lminus_lminus_app|].
+      apply (add_copy_Good_minus (lminus E si fk) st st1 si [(dir_oid_of H (dir_listing (s_alg s) files d), dir_listing (s_alg s) files d)] true);
+        [|exact H1].
+      intros it [<-|[]]. simpl. intros a Ha. rewrite Hal in Ha. injection Ha as <-.
+      unfold dir_oid_of, dir_listing, listing_of. apply named_ok_dir. apply (Hall d). now left.
+Qed.
+
+Lemma migrate_op_Good_minus E st src dst order hard :
+  Names st -> M E st O [] [] ->
+  Good (lminus E dst (snd (covered st (OMigrate src dst order hard)))) st (fst (migrate_op H st src dst order hard)).
+Proof.
+  intros HN HM. unfold migrate_op, covered. cbn [snd].
+  destruct (get_store st src) as [s|] eqn:Es; [|apply Good_nil; now apply Good_refl].
+  destruct (get_store st dst) as [d|] eqn:Ed; [|apply Good_nil; now apply Good_refl].
+  destruct (s_objs s) as [|p ps] eqn:Eo.
+  { simpl. eapply Good_weaken; [|now apply Good_refl]. intros j k A. split; [exact A|].
+    intros [_ Hin]. unfold migrate_items in Hin. simpl in Hin. destruct Hin. }
+  rewrite <- Eo. simpl.
+  destruct (add_link_ok E st dst (migrate_items H (s_alg d) (s_objs s) order) hard) as (A & B & C); auto.
+  - intros it Hin. unfold migrate_items in Hin.
+    apply in_flat_map in Hin as (k & _ & Hk).
+    destruct (alookup k (s_objs s)) as [o|] eqn:El; [|destruct Hk].
+    destruct Hk as [<-|[]]. simpl.
+    intros a Ha. rewrite (alg_at_get _ _ _ Ed) in Ha. injection Ha as <-.
+    pose proof (HN src s k o Es El) as Hn. unfold named_ok in Hn |- *.
+    destruct (is_dir_oid k).
+    + rewrite is_dir_oid_app. split; [reflexivity|apply Hn].
+    + rewrite app_nil_r, H_not_dir. reflexivity.
+  - split; [exact A|]. split; [exact B|exact C].
+Qed.
+
 (* the same directory under the other class: what is unprotected there becomes a leftover *)
 Definition unprotected (st : state) (si : nat) (k : oid) : Prop :=
   exists s o, get_store st si = Some s /\ alookup k (s_objs s) = Some o /\ o_mode o <> mode_ro.
@@ -1081,25 +1342,26 @@ Definition WfOp (st : state) (o : op) : Prop :=
   end.
 
 (* the leftovers after an operation: reopening a directory under the local class adds what is
-   unprotected in it; an external add removes the id it was asked for (present or copied); the
-   other operations never add any (they remove the ids they add or cover - not stated here) *)
+   unprotected in it; every other operation of dvc-data removes the ids it adds or covers
+   ([covered]: the id of an external add; the file and directory ids of a stage / index save; every
+   id a transfer asks the destination about; the new ids of a migrate) and never adds any *)
 Definition leftover_after (st : state) (o : op) (E : lset) : lset :=
   match o with
   | OReopen si c => fun j k => E j k \/ (j = si /\ c = Local /\ unprotected st si k)
-  | OAdd si _ k => lminus E si [k]
-  | _ => E
+  | ORot _ _ _ => E
+  | _ => lminus E (fst (covered st o)) (snd (covered st o))
   end.
 
 Lemma step_Good E st o : InvE E st -> WfOp st o -> Good (leftover_after st o E) st (step H st o).
 Proof.
   intros HI Hw. apply InvE_split in HI as [HN HM]. unfold step.
-  destruct o; simpl in *.
-  - now apply stage_Good.
-  - now apply stage_upload_Good.
+  destruct o; simpl leftover_after; cbn [step_op fst].
+  - now apply stage_Good_minus.
+  - now apply stage_upload_Good_minus.
   - now apply add_ext_Good.
-  - now apply transfer_op_Good.
-  - now apply save_index_Good.
-  - now apply migrate_op_Good.
+  - now apply transfer_op_Good_minus.
+  - now apply save_index_Good_minus.
+  - now apply migrate_op_Good_minus.
   - now apply reopen_Good.
   - contradiction.
 Qed.
@@ -1124,9 +1386,8 @@ Theorem C01_step st o : Inv st -> WfOp st o -> keeps_class o -> Inv (step H st o
 Proof.
   intros HI Hw Hk. apply Inv_InvE. apply Inv_InvE in HI.
   eapply InvE_weaken; [|apply (C01_step_leftover lempty st o HI Hw)].
-  intros j k. destruct o; simpl; try tauto.
-  - intros [A _]. exact A.
-  - destruct c; [contradiction|]. intros [A|(_ & Hc & _)]; [exact A|discriminate].
+  intros j k. destruct o; simpl leftover_after; try (intros [A _]; exact A); try tauto.
+  destruct c; [contradiction|]. intros [A|(_ & Hc & _)]; [exact A|discriminate].
 Qed.
 
 (* "add protects every oid it is asked for, copied or already present": after a truthful external
